@@ -376,6 +376,22 @@ func GenConc(seed uint64, prop, target string) (*Scenario, map[string]int64) {
 		}
 		sg.sc.Tasks = append(sg.sc.Tasks, calls)
 	}
+	if r.P(40) {
+		// Several tasks first put a text nested deeper than 1024 levels through validation at
+		// overlapping times (cheap: Equal against a scalar validates, then compares one level), so
+		// that distinct pooled scanners have grown their nesting stacks before the ordinary calls
+		// draw them from the pool.
+		deep := sg.addBuf(g.Deep(1030 + r.Intn(400)))
+		one := sg.addBuf("1")
+		for t := range sg.sc.Tasks {
+			if t < 2 || r.Bool() {
+				sg.nextID++
+				c := Call{ID: sg.nextID, Fn: FnEqual, Name: "Equal", A: deep, B: one}
+				sg.sc.Tasks[t] = append([]Call{c}, sg.sc.Tasks[t]...)
+			}
+		}
+		sg.faults["deep_nesting_before_ordinary_calls"]++
+	}
 	return sg.sc, sg.faults
 }
 
